@@ -33,6 +33,9 @@ CHECKS = {
  "C11": dict(engine="mux", tech="TLA+ spec (Mux faults: Cut, CloseA, CloseB, overflow) model-checked by TLC incl. liveness AfterClose/WritersEnd; TLC-enumerated fault placements (Gen_Mux) replayed on the real mux with a byte-cutting trunk; traces validated by TLC",
    text="Design: PrefixInv under every fault and the liveness properties AfterClose / WritersEnd are model-checked. Gen_Mux enumerates the trunk cut after byte k in either direction (every k in thorough, every 3rd in quick), a close of either end after j frames by 1, 2 or 8 concurrent closers, and overflow at every position for queue lengths 1 and 2; each is realised on the real mux in a child process (a panic is observed as such). The validated trace must show: received data always the in-order prefix (queue head) of what was sent; an overflow only when the queue really was full; no Read/Write/Close/Accept hanging (3 s watchdog); writes after the failure fail; reads return queued frames and then an error (EOF after an orderly close); second Accept returns EOF after the listener is closed.",
    ref="5/C11", note="As C10. After an error, reads may still return frames that were already queued (conn.Read selects between the closed channel and the queue); the property's prefix clause is what is asserted."),
+ "C14": dict(engine="convert", tech="TLA+ spec (Convert: field tables, Copy contract, optional constructors, event-name table) enumerated by TLC; exported pkg/api functions executed on every enumerated input; outputs validated by TLC (Trace_Convert)",
+   text="Convert.tla states which fields both representations carry, what Copy preserves, nil/value behaviour of each optional constructor and the bit<->name table of the event mask (TableOK checked by TLC). TLC enumerates inputs: every scalar resource field alone with boundary values incl. zero vs unset, all/none, lists, (thorough) every subset of the 17 common fields, Copy followed by mutation of each mutable part on either side (no shared state), mounts, devices, hooks in all six stages, env entries, every constructor x argument kind x boundary value, and all 8192 event masks (print, parse, IsSet) exhaustively in both tiers; the real functions' outputs must equal the specification's.",
+   ref="5/C14", note="Trusted base: TLC; harness/abs projections; env entries without '=' and Copy of the v1-emulation Devices list are outside the property."),
  "C15": dict(engine="dispatch", tech="TLA+ spec (StubDispatch: subscription rule, dispatch table) checked and enumerated by TLC; generated plugin types (one per handler subset) on a real stub against a scripted runtime end; traces validated by TLC (Trace_Dispatch)",
    text="The subscription rule (NeverUnhandled, ExactWhenSilent) is checked by TLC over every generated handler subset and Configure answer. For each subset (260 in quick: singletons, pairs, complements, none, all, random; all 8192 in thorough) a Go type implementing exactly those handler interfaces is generated, started on a real stub and driven by a scripted mux+ttRPC runtime end that configures it (mask 0 / implemented set / subset / superset / unimplemented event / foreign bit / error) and then sends all thirteen messages, subscribed or not; the validated trace must show the subscription the specification computes (or the rejection), exactly one invocation of exactly the right handler per message with the pod, container and resources of the message, and the handler's adjustment, updates or error back unchanged.",
    ref="5/C15", note="Trusted base: TLC; the generated mixin types (harness/stubdrv/dispatch.go) and the scripted runtime end (harness/rawpeer)."),
@@ -100,6 +103,8 @@ m = {
  "engines": [
    {"name": "mux", "path": "/verif/lib/mux.py", "serves_properties": ["C10", "C11"],
     "kind_free_text": "TLC model checking (tla/Mux), fault placements (tla/Gen_Mux), recording driver with child isolation (harness/muxdrv, hooks in mux.go), TLC trace validation (tla/Trace_Mux)"},
+   {"name": "convert", "path": "/verif/lib/convert.py", "serves_properties": ["C14"],
+    "kind_free_text": "TLC (tla/Convert) + pkg/api functions executed by harness/convdrv + TLC validation (tla/Trace_Convert)"},
    {"name": "dispatch", "path": "/verif/lib/dispatch.py", "serves_properties": ["C15"],
     "kind_free_text": "TLC (tla/StubDispatch) + generated plugin types built per run + scripted runtime end + TLC trace validation (tla/Trace_Dispatch)"},
    {"name": "stublife", "path": "/verif/lib/stublife.py", "serves_properties": ["C16"],
